@@ -36,16 +36,18 @@ CLAIMED = {
              'Tie: random sorted/unsorted call lists dense around the blur boundary, write_indel_file round trip, both finders driven with fake alignments.',
         note=NOTE + 'Integer positions in the model; sv/ scripts imported with /repo/sv on sys.path.', design='6 (C20)', technique='Coq proof by loop invariant + differential correspondence + oracle'),
     'C15': dict(
-        text='Theorems in coq/props/C15.v over the model of conflict resolution: one resolution step returns a prefix of the left and a suffix of the right member with the same peaks and '
-             'scores recomputed as sums (all five outcomes), __sub__ removes exactly a suffix/prefix; (lift to the whole stack-based resolver, keeps-outside and disjointness: in progress, see DESIGN.md). '
+        text='Theorems in coq/props/C15.v over the model of the chainer + stack-based resolver (all closed, no partial): every output segment is a contiguous sub-run (firstn/skipn) of exactly one chain member with the same peak and '
+             'score = sum of what is left (C15_subrun, also for aligner_align); pairs outside every overlap are kept through the whole loop (C15_keeps_outside); for segments produced from sorted maps by any list of seed peaks the '
+             'output is pairwise disjoint and non-crossing on both sequences (C15_disjoint), via chain admissibility, the stack invariant across pop-and-retry and non-crossing of pairings of two peaks; verified checker disjoint_dirb with spec. '
              'Tie: Aligner.align on ladders of peaks, indel blocks, dense lattices, score-folding and fragment cases: the full candidate pipeline model (pairing, scoring, factory, chainer, resolver, row, HitEnum) '
              'is evaluated in Coq and compared segment by segment; oracle: sub-run / no re-scoring / no shared label or crossing / pairs outside every overlap kept.',
         note=NOTE + 'Coordinates on the 0.5 grid, parameters on the exact grid; join-score division covered by C14.', design='6 (C15)', technique='Coq proof (sub-run lemmas) + pipeline differential correspondence + oracle'),
     'C01': dict(
-        text='coq/props/C01.v: the verified checker valid_rowb is sound and complete for the property statement (labels exist, strictly ascending reference, strictly monotone query per strand, '
-             'non-empty) and a valid matching is one-to-one; the checker is evaluated INSIDE Coq on every row the implementation returns, next to the pipeline model correspondence '
+        text='coq/props/C01.v: C01_all_rows_valid — for every sorted reference/query, every list of seed peaks, both strands, all parameters with SU <= 0 < MS, the row built by the model of Aligner.align '
+             '(pairing, scoring, factory, chain, stack-based conflict resolution, Row.create) is a valid matching (labels exist, strictly ascending reference, strictly monotone query per strand, non-empty when it has a pair), '
+             'and its listing order is already sorted; the verified checker valid_rowb (sound and complete) is evaluated INSIDE Coq on every row the implementation returns, next to the pipeline model correspondence '
              '(Aligner.align cases and the candidates of real end-to-end runs captured through COMA\'s extension mechanism); every record of every XMAP file of the four modes is checked from the file text. '
-             'Pipeline theorems (C12_pairs_in_order_subrun for segments; resolver disjointness) are added as they close.',
+             'Joined rows of the multi-pass modes are NOT covered by the theorem (open finding, DESIGN.md 10.4); they are decided per record by the checker/oracle.',
         note=NOTE + 'End-to-end runs: Program(args, extensions) in subprocesses; independent CMAP/XMAP text parsers.', design='6 (C01)', technique='verified checker (Coq) evaluated on implementation outputs + pipeline correspondence + end-to-end oracle'),
     'C14': dict(
         text='Theorems in coq/props/C14.v over Core.chain (pre-order, O(n^2) DP with strict updates, first-best end, back-tracking) connected to the generic DP theorem: result = subsequence of the '
